@@ -346,5 +346,129 @@ theorem den_lemma1 (hM : M.Compatible G) (hG : G.WF) (σ' : Val) {pop : Option V
         obtain ⟨p, s, e1, hvp⟩ := split_of_mem hvH
         rw [den_lemma1Factor hM hG σ σ' hs e1 hvp hvf, hR v p s e1, ratio_prob hM hG σ σ' hs hnd hsub e1]
 
+/-! ### the probability of the ancestral set built by IDENTIFY -/
+
+theorem check_ok {d d' : Dist} (h : Dist.check d = .ok d') : d' = d := by
+  unfold Dist.check at h
+  split at h
+  · cases h
+  · cases h; rfl
+
+theorem ancestralProb_shape {pop : Option Var} {ch pa : List Var} {oA : List Name} {e : Expr}
+    (h : ancestralProb pop ch pa oA = .ok e) :
+    ∃ c P', e = .prob pop c P' ∧ c.Perm (dedup' (oA.map (inWorld (world ch)))) ∧ (∀ x, x ∈ P' ↔ x ∈ pa) ∧
+      (P' = [] ↔ pa = []) := by
+  unfold ancestralProb at h
+  split at h
+  · cases h
+  · rename_i a as hmap
+    cases h1 : Dist.ofJoint a as with
+    | error err => rw [h1] at h; simp [bind, Except.bind] at h
+    | ok d1 =>
+      rw [h1] at h
+      simp only [bind, Except.bind] at h
+      have e1 := check_ok h1
+      cases h2 : d1.given pa with
+      | error err => rw [h2] at h; simp at h
+      | ok d2 =>
+        rw [h2] at h
+        simp only at h
+        have e2 := check_ok h2
+        rcases mkProb_shape h with ⟨c, P', rfl, hc, hP, hPnil⟩
+        subst e2
+        subst e1
+        refine ⟨c, P', rfl, ?_, ?_, ?_⟩
+        · rw [hmap]; exact hc.trans (upgradeOrdering_perm _)
+        · intro x; rw [hP x]; simp [mem_upgradeOrdering]
+        · rw [hPnil]; simp [upgradeOrdering_eq_nil]
+
+theorem nodup_map_inWorld (ch : List Var) {ns : List Name} (h : ns.Nodup) : (ns.map (inWorld (world ch))).Nodup := by
+  refine List.Nodup.map_on ?_ h
+  intro a _ b _ e
+  have := congrArg Var.name e
+  rwa [inWorld_name, inWorld_name] at this
+
+/-- `P_w(A | Z)` built from `q = P_w(H | Z)` is again of the required shape, now for `A` -/
+theorem ancestralProb_probShape {pop : Option Var} {ch pa : List Var} {H oA : List Name} {e : Expr} {w : List Iv}
+    (hs : Shape G ch pa H w) (hoA : oA.Nodup) (hAH : ∀ a ∈ oA, a ∈ H)
+    (h : ancestralProb pop ch pa oA = .ok e) :
+    ∃ c P', e = .prob pop c P' ∧ Shape G c P' oA w ∧ (P'.isEmpty = pa.isEmpty) ∧
+      (∀ x, x ∈ P'.map (·.name) ↔ x ∈ pa.map (·.name)) := by
+  obtain ⟨c, P', rfl, hc, hP, hPnil⟩ := ancestralProb_shape h
+  rw [dedup'_eq_of_nodup _ (nodup_map_inWorld ch hoA)] at hc
+  refine ⟨c, P', rfl, ⟨?_, ?_, ?_, ?_⟩, ?_, ?_⟩
+  · have := hc.map (·.name)
+    rwa [map_inWorld_names] at this
+  · intro x hx
+    rcases List.mem_append.mp hx with hx | hx
+    · rcases List.mem_map.mp (hc.mem_iff.mp hx) with ⟨n, hn, rfl⟩
+      exact hs.world _ (List.mem_append_left _ (inWorld_mem (hs.perm.mem_iff.mpr (hAH n hn))))
+    · exact hs.world _ (List.mem_append_right _ ((hP x).mp hx))
+  · intro i hi
+    exact ⟨(hs.ivs i hi).1, fun hm => (hs.ivs i hi).2.1 (hAH _ hm), (hs.ivs i hi).2.2⟩
+  · intro p hp
+    exact ⟨fun hm => (hs.parents p ((hP p).mp hp)).1 (hAH _ hm), (hs.parents p ((hP p).mp hp)).2⟩
+  · cases hP' : P' with
+    | nil => have := hPnil.mp hP'; simp [this]
+    | cons a l =>
+      cases hpa : pa with
+      | nil => have := hPnil.mpr hpa; rw [hP'] at this; cases this
+      | cons b m => rfl
+  · intro x
+    simp only [List.mem_map]
+    constructor
+    · rintro ⟨y, hy, rfl⟩; exact ⟨y, (hP y).mp hy, rfl⟩
+    · rintro ⟨y, hy, rfl⟩; exact ⟨y, (hP y).mpr hy, rfl⟩
+
+/-- **Lemma 3 for a single-world probability**: `P_w(A | Z) = Σ_{H ∖ A} P_w(H | Z)` -/
+theorem den_ancestralProb (hM : M.Compatible G) (hG : G.WF) (σ' : Val) {pop : Option Var} {ch pa : List Var}
+    {H oA R : List Name} {w : List Iv} (hs : Shape G ch pa H w) (hsub : ∀ x ∈ H, x ∈ G.nodes)
+    (hoA : oA.Nodup) (hoAne : oA ≠ []) (hR : R.Nodup)
+    (hcover : ∀ x, x ∈ H ↔ x ∈ oA ∨ x ∈ R) (hdisj : ∀ x ∈ R, x ∉ oA)
+    {e : Expr} (h : ancestralProb pop ch pa oA = .ok e) :
+    den (M.env G) σ' e = sumVars M.card R (den (M.env G) σ' (.prob pop ch pa)) := by
+  have hAH : ∀ a ∈ oA, a ∈ H := fun a ha => (hcover a).mpr (Or.inl ha)
+  have hHne : H ≠ [] := by
+    cases oA with
+    | nil => exact absurd rfl hoAne
+    | cons a l => intro h0; have := hAH a List.mem_cons_self; rw [h0] at this; cases this
+  obtain ⟨c, P', rfl, hs', hemp, hnames⟩ := ancestralProb_probShape hs hoA hAH h
+  set X := w.map (·.name) with hX
+  set Z := pa.map (·.name) with hZ
+  have hXH : ∀ x ∈ H, x ∉ X := by
+    intro x hx hxX
+    rcases List.mem_map.mp hxX with ⟨i, hi, rfl⟩
+    exact (hs.ivs i hi).2.1 hx
+  have hZH : ∀ x ∈ H, x ∉ Z := by
+    intro x hx hxZ
+    rcases List.mem_map.mp hxZ with ⟨q, hq, rfl⟩
+    exact (hs.parents q hq).1 hx
+  funext σ
+  rw [den_shape hM hG σ σ' hs' hoAne]
+  have hden : den (M.env G) σ' (.prob pop ch pa) =
+      fun τ => F M G X (H ++ Z) τ / (if pa.isEmpty then 1 else F M G X Z τ) :=
+    funext fun τ => den_shape hM hG τ σ' hs hHne
+  rw [hden]
+  have hc : F M G X (H ++ Z) = F M G X (R ++ (oA ++ Z)) := by
+    apply F_congr; intro x
+    simp only [List.mem_append, hcover]; tauto
+  rw [hc, sumVars_F_div hG X Z R (oA ++ Z) pa.isEmpty σ hR]
+  · rw [hemp]
+    congr 1
+    · apply congrFun
+      apply F_congr
+      intro x
+      simp only [List.mem_append, hnames x, hZ]
+    · split
+      · rfl
+      · apply congrFun
+        exact F_congr _ hnames
+  · intro y hy
+    have hyH : y ∈ H := (hcover y).mpr (Or.inr hy)
+    refine ⟨hsub y hyH, hXH y hyH, ?_⟩
+    simp only [List.mem_append, not_or]
+    exact ⟨hdisj y hy, hZH y hyH⟩
+  · intro z hz; simp [hz]
+
 end TianLemma1
 end Y0
